@@ -22,8 +22,8 @@ from engine.classes import Classes
 PID = 'C10'
 
 META = {
-    'technique': 'branch-refined CFG reachability under "result != EB_ErrorNone" (error-leaves-loop), result-use analysis over can-fail summaries, dominance of bound comparisons over unsigned cursor arithmetic, limit-field consultation check for the bit reader',
-    'text': 'Decides four structural necessary conditions for "arbitrary bytes give an error return, never a hang or an over-read" in the decoder front end: a failing OBU/tile parse leaves every loop it was called from; no decoder error result is dropped; the remaining-size counter of the OBU walkers is never decreased by an unvalidated bitstream amount; the bit reader consults its end pointer. It does not decide subscripts computed from parsed syntax elements, nor the reconstruction kernels. Also decided: a sequence header that changes the geometry re-arms the memory initialisation through a real before/after comparison, and no *_rows quantity of the decoder is assigned the very expression of its *_cols twin.',
+    'technique': 'branch-refined CFG reachability under "result != EB_ErrorNone" (error-leaves-loop), result-use analysis over can-fail summaries, dominance of bound comparisons over unsigned cursor arithmetic, limit-field consultation check for the bit reader; survey of assertion macros (recorded with their argument text even under NDEBUG) over the header parser: bounds on bit-stream values and error branches must also exist as real control flow on every call path; typestate of the OBU dispatcher (sequence header accepted before frame syntax, no tile group behind a show-existing header)',
+    'text': 'Decides four structural necessary conditions for "arbitrary bytes give an error return, never a hang or an over-read" in the decoder front end: a failing OBU/tile parse leaves every loop it was called from; no decoder error result is dropped; the remaining-size counter of the OBU walkers is never decreased by an unvalidated bitstream amount; the bit reader consults its end pointer. It does not decide subscripts computed from parsed syntax elements, nor the reconstruction kernels. Also decided: a sequence header that changes the geometry re-arms the memory initialisation through a real before/after comparison, and no *_rows quantity of the decoder is assigned the very expression of its *_cols twin. Also decided for the header parser: every assertion that bounds a value read from the bit stream is matched by a real test with an error exit on every call path, every branch that ends in assert(0) returns an error, frame-level syntax is parsed only after a sequence header has been accepted, and an OBU_FRAME whose header says show_existing_frame does not reach the tile group.',
     'note': 'the bit reader (GET_BITS / dec_bits_init) never consults buf_max and the Annex-B / header advances are unchecked: recorded as known findings keyed by function and construct; assert() is not a test in the production configuration',
     'ref': 'DESIGN.md section 5 C10',
 }
